@@ -24,4 +24,9 @@ def cardinality_representation (c : Card) (outOfComment : Bool) : String :=
     | Card.exact k => "{" ++ toString k ++ "}"
     | Card.plus => "+" | Card.star => "*" | Card.opt => "?"
 
+def MACRO_MAPPING : List (String × Option String) :=
+  [("IRI", some "http://www.w3.org/ns/shacl#IRI"), ("LITERAL", some "http://www.w3.org/ns/shacl#Literal"),
+   (".", none), ("BNode", some "http://www.w3.org/ns/shacl#BlankNode"),
+   ("NONLITERAL", some "http://www.w3.org/ns/shacl#BlankNodeOrIRI")]
+
 end Shexer.Fallback
